@@ -576,7 +576,7 @@ func runC35(c *Ctx) {
 		}
 		Instrs(f, func(in ssa.Instruction) {
 			sl, ok := in.(*ssa.Slice)
-			if !ok || !strings.HasSuffix(u.Describe(sl.X), "s.data") || !strings.Contains(u.Pos(in.Pos()), "shm") {
+			if !ok || !isSegmentData(sl.X) {
 				return
 			}
 			var leaf ssa.Value
@@ -777,9 +777,16 @@ func runC35(c *Ctx) {
 	}
 	// R-NO-UNSAFE
 	nFiles := 0
+	// the portable segment code = the file(s) declaring ReadBatch / AllocateAndWrite / allocateLocked
+	portable := map[string]bool{}
+	for _, n := range []string{"(*ShmSegment).ReadBatch", "(*ShmSegment).AllocateAndWrite", "(*ShmSegment).allocateLocked", "ResolveShmBatch"} {
+		if f := u.Func(n); f != nil {
+			portable[u.Fset.Position(f.Pos()).Filename] = true
+		}
+	}
 	for _, f := range u.Root.Syntax {
 		name := u.Fset.Position(f.Pos()).Filename
-		if !strings.HasSuffix(name, "/shm.go") {
+		if !portable[name] {
 			continue
 		}
 		nFiles++
@@ -823,6 +830,16 @@ func isLoopIndex(v ssa.Value) bool {
 		}
 	}
 	return false
+}
+
+// isSegmentData: v is a load of the ShmSegment.data field (the mapping).
+func isSegmentData(v ssa.Value) bool {
+	ld, ok := v.(*ssa.UnOp)
+	if !ok || ld.Op != token.MUL {
+		return false
+	}
+	fa, ok := ld.X.(*ssa.FieldAddr)
+	return ok && fieldKey(fa.X.Type(), fa.Field) == "ShmSegment.data"
 }
 
 // leafIsAllocOffset: v is result #0 of an allocateLocked call.
